@@ -232,6 +232,23 @@ def tlc_design(ctx, module, cfg=None, timeout=1200, workers='auto', env=None, ex
                     % (module, cfg, filtered(r.out, 60)))
     return r
 
+def tlaps_proof(ctx, module, deps, timeout=600):
+    """Checks a TLAPS proof module (tlapm, all back ends) in a scratch copy; records it among the design runs."""
+    import shutil, tempfile, time as _t
+    d = tempfile.mkdtemp(prefix='vt-tlaps-')
+    try:
+        for m in [module] + list(deps):
+            shutil.copy(os.path.join(VERIF, 'spec', m + '.tla'), d)
+        t0 = _t.time()
+        p = sh(['timeout', str(timeout), 'tlapm', '--threads', str(NCPU), module + '.tla'], cwd=d)
+        m = re.search(r'All (\d+) obligations? proved', p.stdout)
+        ctx.design.append({'module': module, 'cfg': 'tlapm (TLA+ proof system: SMT, Zenon, Isabelle back ends)', 'obligations_proved': int(m.group(1)) if m else 0,
+                           'wall_s': round(_t.time() - t0, 1), 'ok': bool(m), 'label': 'unbounded proof'})
+        if not m:
+            raise Infra('the TLAPS proof %s is not accepted any more (the definitions it is about have changed?):\n%s' % (module, p.stdout[-1500:]))
+    finally:
+        shutil.rmtree(d, ignore_errors=True)
+
 def observe(ctx, traces, props, module='TraceObs'):
     """Runs the L1 observer over trace files; returns list of (prop, scen) violations."""
     if not traces:
